@@ -297,6 +297,54 @@ func TestC34(t *testing.T) {
 		if tt != "" {
 			cnt := strings.Count(s, tt)
 			add("CHAR_LENGTH(REPLACE(s,t,u)) = CHAR_LENGTH(s) + occurrences*(CHAR_LENGTH(u)-CHAR_LENGTH(t))", f("CHAR_LENGTH(REPLACE(%s,%s,%s))", S, T, U), []string{"s", "t", "u"}, wantInt(int64(sl+cnt*(runeLen(u)-runeLen(tt)))))
+			// TRIM([BOTH|LEADING|TRAILING] remstr FROM str): "all remstr prefixes or suffixes removed"
+			add("TRIM(LEADING t FROM s)", f("TRIM(LEADING %s FROM %s)", T, S), []string{"s", "t"}, wantStr(refTrimStr(s, tt, true, false)))
+			add("TRIM(TRAILING t FROM s)", f("TRIM(TRAILING %s FROM %s)", T, S), []string{"s", "t"}, wantStr(refTrimStr(s, tt, false, true)))
+			// the manual does not say whether prefixes or suffixes go first; when they overlap
+			// (TRIM(BOTH 'aba' FROM 'ababa')) either order is accepted
+			lt := refTrimStr(s, tt, true, true)
+			tl := refTrimStr(refTrimStr(s, tt, false, true), tt, true, false)
+			add("TRIM(BOTH t FROM s)", f("TRIM(BOTH %s FROM %s)", T, S), []string{"s", "t"}, func(v any) string {
+				if got, ok := str(v); ok && (got == lt || got == tl) {
+					return ""
+				}
+				return q(lt)
+			})
+		}
+		// documented synonyms and length relations
+		add("CHARACTER_LENGTH(s) = CHAR_LENGTH(s)", f("CHARACTER_LENGTH(%s)", S), []string{"s"}, wantInt(int64(sl)))
+		add("OCTET_LENGTH(s) = LENGTH(s)", f("OCTET_LENGTH(%s)", S), []string{"s"}, wantInt(int64(len(s))))
+		add("BIT_LENGTH(s) = 8*LENGTH(s)", f("BIT_LENGTH(%s)", S), []string{"s"}, wantInt(int64(8*len(s))))
+		add("LENGTH(s) counts bytes", f("LENGTH(%s)", S), []string{"s"}, wantInt(int64(len(s))))
+		add("MID(s,p,l) = SUBSTRING(s,p,l)", f("MID(%s,%s,%s)", S, P, L), []string{"s", "p", "l"}, wantStr(refSubstring(s, p, l, true)))
+		add("SUBSTR(s,p) = SUBSTRING(s,p)", f("SUBSTR(%s,%s)", S, P), []string{"s", "p"}, wantStr(refSubstring(s, p, 0, false)))
+		if as.columns || !(S == "NULL" || P == "NULL" || L == "NULL") {
+			// (the parser of the engine rejects a literal NULL in the FROM … FOR spelling; parsing is not C34's subject)
+			add("SUBSTRING(s FROM p FOR l) = SUBSTRING(s,p,l)", f("SUBSTRING(%s FROM %s FOR %s)", S, P, L), []string{"s", "p", "l"}, wantStr(refSubstring(s, p, l, true)))
+		}
+		if isASCII(s) {
+			add("UCASE(s) = UPPER(s)", f("UCASE(%s)", S), []string{"s"}, wantStr(strings.ToUpper(s)))
+			add("LCASE(s) = LOWER(s)", f("LCASE(%s)", S), []string{"s"}, wantStr(strings.ToLower(s)))
+		}
+		add("SPACE(k) = REPEAT(' ',k)", f("SPACE(%s)", K), []string{"k"}, wantStr(refRepeat(" ", k)))
+		// CONCAT_WS: NULL separator gives NULL; NULL values after the separator are skipped
+		{
+			isNull := func(name string) bool {
+				for _, x := range as.args {
+					if x.name == name {
+						return x.null
+					}
+				}
+				return false
+			}
+			var parts []string
+			if !isNull("s") {
+				parts = append(parts, s)
+			}
+			if !isNull("t") {
+				parts = append(parts, tt)
+			}
+			add("CONCAT_WS(u,s,t) joins the non-NULL values with u", f("CONCAT_WS(%s,%s,%s)", U, S, T), []string{"u"}, wantStr(strings.Join(parts, u)))
 		}
 
 		fxt := fx.New(fx.Opts{})
